@@ -322,7 +322,7 @@ def ill_shaped(rng, toks: list[str], ctx: str) -> list[str]:
 
 
 # ------------------------------------------------------------------ run
-def gen_s1(rng, c, keys, size, basic="B", used=None):
+def gen_s1(rng, c, keys, digests, size, basic="B", used=None):
     """type-directed expression over the fragment set T3 covers (0 1 pk_k c: v: a: n: and_v and_b or_b or_c or_d
     or_i andor); None when the real type system refuses the draw."""
     used = used if used is not None else []
@@ -337,9 +337,9 @@ def gen_s1(rng, c, keys, size, basic="B", used=None):
         def sub(bb, part=2):
             return go(bb, max(1, (sz - 1) // part))
         if b == "K":
-            r = rng.choice(["pk_k"] * 3 + (["and_v", "or_i", "andor"] if sz > 2 else []))
-            if r == "pk_k":
-                return Miniscript("pk_k", c, keys=(key(),))
+            r = rng.choice(["pk_k"] * 2 + ["pk_h"] + (["and_v", "or_i", "andor"] if sz > 2 else []))
+            if r in ("pk_k", "pk_h"):
+                return Miniscript(r, c, keys=(key(),))
             if r == "and_v":
                 return Miniscript("and_v", c, (sub("V"), sub("K")))
             if r == "or_i":
@@ -359,11 +359,14 @@ def gen_s1(rng, c, keys, size, basic="B", used=None):
                 return Miniscript("or_i", c, (sub("V"), sub("V")))
             return Miniscript("andor", c, (sub("B", 3), sub("V", 3), sub("V", 3)))
         if sz <= 1:
-            r = rng.choice(["c:", "c:", "c:", "1", "0"])
+            r = rng.choice(["c:", "c:", "c:", "1", "0", "hash"])
         else:
-            r = rng.choice(["c:", "n:", "and_v", "and_b", "or_b", "or_d", "or_i", "andor", "1", "0"])
+            r = rng.choice(["c:", "n:", "and_v", "and_b", "or_b", "or_d", "or_i", "andor", "1", "0", "hash"])
         if r in ("0", "1"):
             return Miniscript(r, c)
+        if r == "hash":
+            h = rng.choice(HASHES)
+            return Miniscript(h, c, data=bytes.fromhex(rng.choice(digests[h])))
         if r == "c:":
             return Miniscript("c:", c, (go("K", sz - 1),))
         if r == "n:":
@@ -428,7 +431,7 @@ def run(ctx):
             nodes.append(G.gen_shaped(rng, c, keys, digests, size=rng.choice([2, 3, 5, 8])))
             ctx.count("source", "shaped")
         for _ in range(ctx.n(60, 1500)):
-            n = gen_s1(rng, c, keys, rng.choice([2, 3, 5, 8, 12]))
+            n = gen_s1(rng, c, keys, digests, rng.choice([2, 3, 5, 8, 12]))
             if n is not None:
                 nodes.append(n)
                 s1_nodes.append(n)
@@ -511,7 +514,8 @@ def run(ctx):
     produced = 0
     solver_left = ctx.n(500, 20000)
     exec_lines = []
-    S1 = {"0", "1", "pk_k", "c:", "v:", "a:", "n:", "and_v", "and_b", "or_b", "or_c", "or_d", "or_i", "andor"}
+    S1 = {"0", "1", "pk_k", "pk_h", "sha256", "hash256", "ripemd160", "hash160", "c:", "v:", "a:", "n:", "and_v",
+          "and_b", "or_b", "or_c", "or_d", "or_i", "andor"}
     for n in spend_nodes[:ctx.n(150, 3000)]:
         text = str(n)
         in_s1 = set(G.histogram(n)) <= S1
@@ -534,9 +538,9 @@ def run(ctx):
                 solver_left -= 1
                 ctx.check("solver", w, nontrivial=bool(r.get("produced")))
     ctx.stream("exec", exec_lines)
-    ctx.note("T3/T4 are partial: covered_constructors = 0, 1, pk_k, c:, v:, a:, n:, and_v, and_b, or_b, or_c, or_d, "
-             "or_i, andor (Props.C15.type_soundness_partial / satisfaction_accepted_partial); not covered: s: d: j: pk_h "
-             "older after sha256 hash256 ripemd160 hash160 multi multi_a thresh, the satisfier's choice and "
+    ctx.note("T3/T4 are partial: covered_constructors = 0, 1, pk_k, pk_h, sha256, hash256, ripemd160, hash160, c:, v:, "
+             "a:, n:, and_v, and_b, or_b, or_c, or_d, or_i, andor (Props.C15.type_soundness_partial / "
+             "satisfaction_accepted_partial); not covered: s: d: j: older after multi multi_a thresh, the satisfier's choice and "
              "the soundness of the static bounds (bounds tables: `bounds` stream; actual spends: `spend` oracle)")
     ctx.note(f"spend oracle: {produced} satisfactions produced and run through the real engine (p2wsh and tapscript)")
     for n in nodes:
